@@ -109,6 +109,11 @@ func expandClass(class string, n int, seed int64) []byte {
 			}
 		}
 		return out[:n]
+	case "dist65536": // a 4-byte window that repeats at distance exactly 65536: n = first run length, seed = second run length
+		out := bytes.Repeat([]byte{'a'}, n)
+		out = append(out, 0, 0, 0, 0x10)
+		out = append(out, bytes.Repeat([]byte{'a'}, int(seed))...)
+		return append(out, []byte("\x00\x00\xf2\x11\x00\x00\x00\x00\x03ks1\x00\x00\x00\x00\x00\x00")...)
 	case "rows": // repeated result-set rows that differ in a counter
 		var b bytes.Buffer
 		for i := 0; b.Len() < n; i++ {
@@ -505,7 +510,7 @@ func c06(tier string, seed int64) {
 		n     int
 		seed  int64
 	}
-	xcs := []xc{{"text", 70000, 33}, {"text", 131071, 33}, {"text", 131071, 1}, {"mixed", 131071, 2}, {"rows", 131071, 3}, {"text", 65536, 33}, {"rows", 70000, 4}}
+	xcs := []xc{{"dist65536", 65520, 16}, {"dist65536", 65534, 15}, {"dist65536", 65400, 4}, {"dist65536", 65700, 40}, {"text", 70000, 33}, {"text", 131071, 33}, {"text", 131071, 1}, {"mixed", 131071, 2}, {"rows", 131071, 3}, {"text", 65536, 33}, {"rows", 70000, 4}}
 	nx := 40
 	if thorough {
 		nx = 3000
@@ -525,7 +530,7 @@ func c06(tier string, seed int64) {
 				continue
 			}
 			e := encodeSeg(comp, i%2 == 0, p)
-			rec := J{"kind": "segx", "class": c.class, "len": c.n, "seed": c.seed, "comp": comp, "sc": i%2 == 0, "enc_ok": e.ok}
+			rec := J{"kind": "segx", "class": c.class, "len": c.n, "seed": c.seed, "plen": len(p), "comp": comp, "sc": i%2 == 0, "enc_ok": e.ok}
 			if e.ok {
 				d := decodeSeg(comp, e.out)
 				rec["dec"] = decJ(d, p)
@@ -963,6 +968,40 @@ func c08(tier string, seed int64) {
 			sc := gosnappy.Encode(nil, x)
 			sd, serr := gosnappy.Decode(nil, sc)
 			hlib.Emit(J{"kind": "contract_snappy", "class": class, "len": sz, "clen": len(sc), "ok": serr == nil && bytes.Equal(sd, x)})
+		}
+	}
+	// permanent corpus: inputs in which a 4-byte window repeats at distance exactly 65536 (the pinned pierrec/lz4
+	// stores that match distance as offset 0)
+	{
+		step1, r2s := 20, []int{4, 15, 16, 40}
+		if thorough {
+			step1, r2s = 1, nil
+			for r := 4; r <= 40; r++ {
+				r2s = append(r2s, r)
+			}
+		}
+		type pr struct{ a, b int }
+		prs := []pr{{65520, 16}, {65534, 15}}
+		for r1 := 65400; r1 <= 65700; r1 += step1 {
+			for _, r2 := range r2s {
+				prs = append(prs, pr{r1, r2})
+			}
+		}
+		for _, q := range prs {
+			x := expandClass("dist65536", q.a, int64(q.b))
+			for _, af := range [][2]string{{"lz4", "raw"}, {"lz4", "withlen"}, {"snappy", "withlen"}} {
+				r := roundTrip(af[0], af[1], x)
+				n++
+				rec := J{"kind": "rt", "algo": af[0], "fmt": af[1], "class": "dist65536", "len": len(x), "run1": q.a, "seed": q.b, "clen": r.clen, "ok": r.ok}
+				if !r.ok {
+					fails++
+					rec["detail"] = r.detail
+					if r.diag != nil {
+						rec["diag"] = r.diag
+					}
+				}
+				hlib.Emit(rec)
+			}
 		}
 	}
 	// wrapper correspondence: small inputs with the library's own block as the oracle answer
